@@ -164,6 +164,12 @@ def run(ctx):
         tasks.append({"name": "MCC14d0", "T": 2, "depth": 0, "cases": d0, "chunk": 60})
     tasks += base.plan_binding(ctx, "C14", PLAN, PARALLEL_PLAN, only_fits=True, builder_runs=14 if quick else 150,
                                allow_keepu=False, rewrite_p=0.35)
+    # ---- histories over one directory (spec/CascadeHistory.tla): cascades in stages (cascade(D), then cascade(k < D) / `toasty cascade
+    # --start k` / Builder.cascade with smaller tile_levels), leaf data that grows between cascades (new leaves, wider versions of old
+    # ones via update_image), ONE Builder cascading several times, a fresh Builder, a Builder restored from index_rel.wtml
+    tasks += base.history_tasks(ctx, "C14", [("fits", "f4", "serial", True), ("fits", "i2", "par2", True)] +
+                                ([] if quick else [("fits", "f8", "par2", True), ("fits", "f4", "serial", False), ("fits", "i4", "serial", True)]),
+                                depths=(2,) if quick else (2, 3))
     def enum_jobs(t, recs):
         js = []
         step = 1 if quick else 2
